@@ -3,6 +3,7 @@
 package main
 
 import (
+	"path/filepath"
 	"flag"
 	"fmt"
 	"os"
@@ -49,8 +50,12 @@ func main() {
 		verif  = flag.String("verif", "/verif", "verification directory (evidence, known findings)")
 		list   = flag.Bool("list", false, "list implemented properties")
 		noEvid = flag.Bool("no-evidence", false, "analyse only, write evidence to a scratch dir (used by the sensitivity run)")
+		all    = flag.Bool("all", false, "sweep mode: load once, run every property, print one line per property with the violated rules (never writes evidence)")
 	)
 	flag.Parse()
+	if *all {
+		os.Exit(sweep(*repo, *verif))
+	}
 	if *list {
 		var ids []string
 		for id := range registry {
@@ -106,4 +111,62 @@ func runProp(id string, run func(p *Prog, r *Report), tier, repo, verif string, 
 		}
 	}
 	return r.Finish(out, tier, seed, start, extra)
+}
+
+// sweep analyses one tree under every property with a single load and prints, per property, the rules and
+// keys that are violated or undecided beyond the known findings. It is the bulk mode of the sensitivity
+// tooling (tools/mutation_sweep.sh); the registered checks never use it.
+func sweep(repo, verif string) int {
+	p, err := Load(repo, defaultConfig)
+	if err != nil {
+		fmt.Printf("LOAD-FAIL %v\n", err)
+		return 2
+	}
+	known, _ := loadKnown(filepath.Join(verif, "known-findings.json"))
+	var ids []string
+	for id := range registry {
+		ids = append(ids, id)
+	}
+	sort.Strings(ids)
+	code := 0
+	for _, id := range ids {
+		var lines []string
+		func() {
+			defer func() {
+				if e := recover(); e != nil {
+					lines = append(lines, fmt.Sprintf("PANIC %v", e))
+				}
+			}()
+			r := NewReport(id, p)
+			registry[id](p, r)
+			for _, ri := range r.Rules {
+				if ri.Instances < ri.Min {
+					lines = append(lines, ri.ID+" [vacuity]")
+				}
+			}
+			kn := map[string]bool{}
+			for _, k := range known {
+				if k.Property == id && k.Status == "known" {
+					kn[k.Rule+"\x00"+k.Key] = true
+				}
+			}
+			for _, o := range r.Obls {
+				if o.Status == Discharged || (o.Status == Violated && kn[o.Rule+"\x00"+o.Key]) {
+					continue
+				}
+				lines = append(lines, fmt.Sprintf("%s [%s] %s", o.Rule, o.Key, o.Pos))
+			}
+		}()
+		if len(lines) > 0 {
+			code = 1
+			sort.Strings(lines)
+			for _, l := range lines {
+				fmt.Printf("ALARM %s %s\n", id, l)
+			}
+		}
+	}
+	if code == 0 {
+		fmt.Println("SILENT")
+	}
+	return code
 }
